@@ -13,8 +13,8 @@ from sim.world import BACKENDS
 class C04(Check):
     prop = "C04"
     level = "exploration"
-    quick_runs = 6000
-    thorough_runs = 150000
+    quick_runs = 12000
+    thorough_runs = 300000
     rule = (
         "seeded multi-party histories (importer/editor/admin/adversary/watcher per bucket, 2-4 buckets on a shared "
         "time lattice so instants coincide across buckets), each executed on one backend; a run is non-trivial when "
